@@ -1935,7 +1935,7 @@ func (f *File) readFromWithConcurrency(r io.Reader, concurrency int) (read int64
 
 		for {
 			// Fill the entire buffer.
-			n, err := io.ReadFull(r, b)
+			n, err := readFull(r, b)
 
 			if n > 0 {
 				read += int64(n)
@@ -1961,7 +1961,7 @@ func (f *File) readFromWithConcurrency(r io.Reader, concurrency int) (read int64
 			}
 
 			if err != nil {
-				if !errors.Is(err, io.EOF) && !errors.Is(err, io.ErrUnexpectedEOF) {
+				if err != io.EOF {
 					errCh <- rwErr{off, err}
 				}
 				return
@@ -2116,7 +2116,7 @@ func (f *File) ReadFrom(r io.Reader) (int64, error) {
 	var read int64
 	for {
 		// Fill the entire buffer.
-		n, err := io.ReadFull(r, b)
+		n, err := readFull(r, b)
 		if n < 0 {
 			panic("sftp.File: reader returned negative count from Read")
 		}
@@ -2134,13 +2134,25 @@ func (f *File) ReadFrom(r io.Reader) (int64, error) {
 		}
 
 		if err != nil {
-			if errors.Is(err, io.EOF) || errors.Is(err, io.ErrUnexpectedEOF) {
+			if err == io.EOF {
 				return read, nil // return nil explicitly.
 			}
 
 			return read, err
 		}
 	}
+}
+
+// readFull fills b from r like io.ReadFull, but reports the end of the source as io.EOF also after a
+// partial fill, and leaves every other error of the source as it is: an io.ErrUnexpectedEOF that the
+// source itself returns (a truncated HTTP body, say) must not be mistaken for the end of the data.
+func readFull(r io.Reader, b []byte) (n int, err error) {
+	for n < len(b) && err == nil {
+		var nn int
+		nn, err = r.Read(b[n:])
+		n += nn
+	}
+	return n, err
 }
 
 // Seek implements io.Seeker by setting the client offset for the next Read or
